@@ -31,6 +31,8 @@ type timer struct {
 	fired     bool
 	cancelled bool
 	owner     *G
+	period    time.Duration // > 0: a ticker, re-armed every time it fires
+	listed    bool          // in Sched.timers
 }
 
 // Choice is what a policy may pick at a scheduling point: a goroutine or a pending timer.
@@ -257,6 +259,8 @@ func (s *Sched) pendingTimers() []*timer {
 	for _, t := range s.timers {
 		if !t.fired && !t.cancelled {
 			out = append(out, t)
+		} else {
+			t.listed = false
 		}
 	}
 	s.timers = out
@@ -264,12 +268,27 @@ func (s *Sched) pendingTimers() []*timer {
 }
 
 func (s *Sched) fire(t *timer) {
-	t.fired = true
 	if t.at > s.now {
 		s.now = t.at
 	}
-	t.ch <- time.Unix(0, 0).Add(s.now)
+	if t.period > 0 {
+		t.at = s.now + t.period // a ticker stays pending
+	} else {
+		t.fired = true
+	}
+	// like the runtime: a value nobody has taken yet is not overwritten and the send never blocks
+	select {
+	case t.ch <- time.Unix(0, 0).Add(s.now):
+	default:
+	}
 	s.changes++
+}
+
+func (s *Sched) arm(t *timer) {
+	if !t.listed {
+		t.listed = true
+		s.timers = append(s.timers, t)
+	}
 }
 
 // sched is called by the goroutine holding the turn (self) at every scheduling point; self.blocked
@@ -279,9 +298,19 @@ func (s *Sched) sched(self *G) {
 		panic(episodeOver{})
 	}
 	grace := 0
+	var firedHere map[*timer]bool // tickers fired at this scheduling point: not offered again before the next one
 	for {
 		cands, cur := s.candidates(self)
 		tms := s.pendingTimers()
+		if len(firedHere) > 0 {
+			kept := make([]*timer, 0, len(tms))
+			for _, t := range tms {
+				if !firedHere[t] {
+					kept = append(kept, t)
+				}
+			}
+			tms = kept
+		}
 		if len(cands) == 0 {
 			bodyDone := s.body.done
 			if len(tms) > 0 && !bodyDone && s.idleFires < 64 {
@@ -294,6 +323,12 @@ func (s *Sched) sched(self *G) {
 				}
 				s.idleFires++
 				s.fire(best)
+				if best.period > 0 {
+					if firedHere == nil {
+						firedHere = map[*timer]bool{}
+					}
+					firedHere[best] = true
+				}
 				continue
 			}
 			if !bodyDone && grace < 40 {
@@ -342,6 +377,12 @@ func (s *Sched) sched(self *G) {
 		}
 		if all[i].Timer {
 			s.fire(all[i].tm)
+			if all[i].tm.period > 0 {
+				if firedHere == nil {
+					firedHere = map[*timer]bool{}
+				}
+				firedHere[all[i].tm] = true
+			}
 			continue
 		}
 		s.steps++
@@ -461,9 +502,161 @@ func GoNamed(name string, f func()) {
 func After(d time.Duration) <-chan time.Time {
 	s, g := me()
 	t := &timer{at: s.now + d, ch: make(chan time.Time, 1), owner: g}
-	s.timers = append(s.timers, t)
+	s.arm(t)
 	g.timers = append(g.timers, t)
 	return t.ch
+}
+
+// Timer is the managed time.Timer: a virtual timer with an explicit life (Stop, Reset). Unlike the
+// timers of After it is not cancelled when the select that waits for it completes.
+type Timer struct {
+	C      <-chan time.Time
+	t      *timer
+	stopCh chan struct{} // AfterFunc: closed by Stop
+	isFunc bool
+}
+
+// NewTimer is the managed time.NewTimer.
+func NewTimer(d time.Duration) *Timer {
+	s, g := me()
+	t := &timer{at: s.now + d, ch: make(chan time.Time, 1), owner: g}
+	s.arm(t)
+	s.changes++
+	s.record(g, "timer-new")
+	s.sched(g)
+	return &Timer{C: t.ch, t: t}
+}
+
+// Stop prevents the timer from firing; it reports whether it stopped it.
+func (tm *Timer) Stop() bool {
+	s, g := me()
+	active := !tm.t.fired && !tm.t.cancelled
+	tm.t.cancelled = true
+	if tm.isFunc && active {
+		close(tm.stopCh)
+	}
+	s.changes++
+	s.record(g, "timer-stop")
+	s.sched(g)
+	return active
+}
+
+// Reset re-arms the timer; it reports whether the timer had been active.
+func (tm *Timer) Reset(d time.Duration) bool {
+	s, g := me()
+	if tm.isFunc {
+		panic("detsync: Reset of an AfterFunc timer is not supported")
+	}
+	active := !tm.t.fired && !tm.t.cancelled
+	tm.t.fired, tm.t.cancelled = false, false
+	tm.t.at = s.now + d
+	s.arm(tm.t)
+	s.changes++
+	s.record(g, "timer-reset")
+	s.sched(g)
+	return active
+}
+
+// Ticker is the managed time.Ticker.
+type Ticker struct {
+	C <-chan time.Time
+	t *timer
+}
+
+// NewTicker is the managed time.NewTicker.
+func NewTicker(d time.Duration) *Ticker {
+	if d <= 0 {
+		panic("non-positive interval for NewTicker")
+	}
+	s, g := me()
+	t := &timer{at: s.now + d, ch: make(chan time.Time, 1), owner: g, period: d}
+	s.arm(t)
+	s.changes++
+	s.record(g, "ticker-new")
+	s.sched(g)
+	return &Ticker{C: t.ch, t: t}
+}
+
+func (tk *Ticker) Stop() {
+	s, g := me()
+	tk.t.cancelled = true
+	s.changes++
+	s.record(g, "ticker-stop")
+	s.sched(g)
+}
+
+func (tk *Ticker) Reset(d time.Duration) {
+	s, g := me()
+	tk.t.cancelled = false
+	tk.t.period = d
+	tk.t.at = s.now + d
+	s.arm(tk.t)
+	s.changes++
+	s.record(g, "ticker-reset")
+	s.sched(g)
+}
+
+// Tick is the managed time.Tick.
+func Tick(d time.Duration) <-chan time.Time {
+	if d <= 0 {
+		return nil
+	}
+	return NewTicker(d).C
+}
+
+// wait1 blocks the caller (as a select with these cases would) until one of the channels is ready and
+// returns its index.
+func wait2(a <-chan time.Time, b <-chan struct{}) int {
+	n := 1
+	if b != nil {
+		n = 2
+	}
+	sel := NewSelect(n)
+	for {
+		switch sel.Next() {
+		case 0:
+			select {
+			case <-a:
+				sel.Hit()
+				return 0
+			default:
+			}
+		case 1:
+			select {
+			case <-b:
+				sel.Hit()
+				return 1
+			default:
+			}
+		}
+	}
+}
+
+// Sleep is the managed time.Sleep: the caller waits for a virtual timer.
+func Sleep(d time.Duration) {
+	if d <= 0 {
+		Yield("sleep")
+		return
+	}
+	s, g := me()
+	t := &timer{at: s.now + d, ch: make(chan time.Time, 1), owner: g}
+	s.arm(t)
+	wait2(t.ch, nil)
+}
+
+// AfterFunc is the managed time.AfterFunc: f runs in a managed goroutine of its own once the virtual
+// timer fires, unless Stop came first.
+func AfterFunc(d time.Duration, f func()) *Timer {
+	s, g := me()
+	t := &timer{at: s.now + d, ch: make(chan time.Time, 1), owner: g}
+	s.arm(t)
+	tm := &Timer{t: t, stopCh: make(chan struct{}), isFunc: true}
+	GoNamed("afterfunc", func() {
+		if wait2(t.ch, tm.stopCh) == 0 {
+			f()
+		}
+	})
+	return tm
 }
 
 // Select drives the polling form of a blocking select statement (see tools/rewrite).
